@@ -11,7 +11,7 @@ proofs/SourceCaret.v proves that they refine the functional model of model/Colle
 
 Fail-closed like gen_source.py: anything outside the fragment -> exit 2, no output file.
 
-usage: gen_source_heap.py <repo_root> <out.v>
+usage: gen_source_heap.py <repo_root> <caret.v> [<views.v> [<runs.v>]]
 """
 from __future__ import annotations
 
@@ -178,6 +178,24 @@ class HFn:
                         die(e, "unsupported f-string piece")
                     acc = a if acc is None else pure(f"py_add {acc} {a}")
                 return acc if acc is not None else "(VStr [])"
+            if isinstance(e, ast.BoolOp) and len(e.values) == 2:
+                # a or b / a and b: Python's value semantics, b evaluated only when needed
+                La, a = self.ex(e.values[0], env)
+                Lb, b = self.ex(e.values[1], env)
+                L.extend(La)
+                t, tb = self.fresh(), self.fresh()
+                L.append(f"{tb} <~ hy_truth {a} ;;;")
+                keep, other = (f"hnx {a}", f"{' '.join(Lb)} hnx {b}")
+                if isinstance(e.op, ast.Or):
+                    L.append(f"{t} <~~ (if {tb} then ({keep}) else ({other})) ;;;")
+                else:
+                    L.append(f"{t} <~~ (if {tb} then ({other}) else ({keep})) ;;;")
+                return t
+            if isinstance(e, ast.UnaryOp) and isinstance(e.op, ast.Not):
+                a = go(e.operand)
+                tb = self.fresh()
+                L.append(f"{tb} <~ hy_truth {a} ;;;")
+                return f"(VBool (negb {tb}))"
             if isinstance(e, ast.IfExp):
                 Lc, c = self.ex(e.test, env)
                 La, a = self.ex(e.body, env)
@@ -207,6 +225,13 @@ class HFn:
                         return eff(f"hy_enumerate {go(e.args[0])}")
                     if f.id in getattr(self.tr, "functions", set()):
                         return eff(self.tr.call_text(self, f.id, [go(x) for x in e.args]))
+                    if f.id in getattr(self.tr, "ext_fns", {}):
+                        if len(e.args) != self.tr.ext_fns[f.id]:
+                            die(e, f"call of the external {f.id} with {len(e.args)} arguments")
+                        self.tr.ext_used.add(f.id)
+                        return eff(f"ext_{f.id} {' '.join(go(x) for x in e.args)}")
+                    if f.id in getattr(self.tr, "dataclasses", {}):
+                        return eff(self.tr.construct_text(self, f.id, e.args, go, eff))
                     die(e, f"call of {f.id} is not translated")
                 if isinstance(f, ast.Attribute):
                     if isinstance(f.value, ast.Name) and f.value.id == "self" and f.attr in self.tr.methods:
@@ -230,6 +255,8 @@ class HFn:
                         return eff(f"hy_join {recv} {go(e.args[0])}")
                     if f.attr == "split" and not e.args:
                         return pure(f"py_split_ws {recv}")
+                    if f.attr == "replace" and len(e.args) == 2:
+                        return pure(f"py_replace {recv} {go(e.args[0])} {go(e.args[1])}")
                     die(e, f"method {f.attr} is not translated")
             die(e, f"unsupported expression {type(e).__name__}")
 
@@ -325,6 +352,9 @@ class HFn:
                 elif isinstance(st, ast.Expr):
                     if isinstance(st.value, (ast.Yield, ast.YieldFrom)):
                         out.add("acc_")
+                elif isinstance(st, ast.AugAssign):
+                    if not isinstance(st.target, ast.Attribute):
+                        die(st, "augmented assignment: `obj.attr += e` only")
                 elif isinstance(st, (ast.Return, ast.Raise, ast.Pass)):
                     pass
                 else:
@@ -389,6 +419,18 @@ class HFn:
                 inner = a[len("(VTuple "):-1]
                 return lines(L, f"'({', '.join(self.v(n) for n in names)}) <~ hy_unpack4 {inner} ;;;") + "\n" + cont()
             die(st, "unsupported assignment target")
+        if isinstance(st, ast.AugAssign):
+            # obj.attr += e : the object expression is evaluated ONCE and first, then the old value is
+            # read, then e is evaluated, then the sum is stored in that same object
+            if not (isinstance(st.target, ast.Attribute) and isinstance(st.op, ast.Add)):
+                die(st, "augmented assignment: `obj.attr += e` only")
+            Lr, r = self.ex(st.target.value, env)
+            old = self.fresh()
+            L, a = self.ex(st.value, env)
+            new = self.fresh()
+            return lines(Lr + [f"{old} <~ hy_getattr {r} {coq_str(st.target.attr)} ;;;"] + L +
+                         [f"{new} <~ hlift (py_add {old} {a}) ;;;",
+                          f"_ <~ hy_setattr {r} {coq_str(st.target.attr)} {new} ;;;"]) + "\n" + cont()
         if isinstance(st, ast.Expr):
             if isinstance(st.value, ast.Call):
                 L, _ = self.ex(st.value, env)
@@ -558,6 +600,123 @@ class HTranslator:
 
 
 # ---------------------------------------------------------------------------------------------
+# third output: the paragraph / run methods of DepthCollector (gen/SourceHeapRuns.v, on top of SourceHeap.v)
+RUN_METHODS = ["commence_paragraph", "_open_par", "_open_runs", "_open_run", "commence_run", "conclude_run",
+               "escape", "add_text_into_open_run", "add_code_into_open_run", "insert_text_as_new_run",
+               "queue_run_for_next_paragraph"]
+RUN_DATACLASSES = ["Run", "Par"]
+# untranslated functions called by these methods: parameters (Section variables) of the generated file
+RUN_EXT_FNS = {"get_paragraph_formatting": 2, "get_run_formatting": 2, "get_pStyle": 1}
+
+
+class RunsTranslator(HTranslator):
+    def __init__(self, repo: Path):
+        global METHODS
+        base = list(METHODS)
+        saved = METHODS
+        METHODS = base + RUN_METHODS
+        try:
+            super().__init__(repo)
+        finally:
+            METHODS = saved
+        self.base = base
+        self.ext_fns = dict(RUN_EXT_FNS)
+        self.ext_used = set()
+        p = repo / "docx2python" / MODULE
+        tree = ast.parse(p.read_text(encoding="utf-8"), filename=str(p))
+        self.dataclasses = {}
+        for name in RUN_DATACLASSES:
+            cls = [n for n in tree.body if isinstance(n, ast.ClassDef) and n.name == name]
+            if len(cls) != 1:
+                raise Reject(f"class {name} not found exactly once")
+            if not any(ast.unparse(d) in ("dataclasses.dataclass", "dataclass") for d in cls[0].decorator_list):
+                raise Reject(f"class {name} is not a plain @dataclass")
+            fields = []      # (name, kind, default)  kind: 'req' | 'const' | 'list' | 'noinit'
+            for st in cls[0].body:
+                if isinstance(st, ast.AnnAssign) and isinstance(st.target, ast.Name):
+                    if st.value is None:
+                        fields.append((st.target.id, "req", None))
+                    elif isinstance(st.value, ast.Constant) and isinstance(st.value.value, str):
+                        fields.append((st.target.id, "const", f"(VStr {coq_str(st.value.value)})"))
+                    elif ast.unparse(st.value) == "dataclasses.field(default_factory=list)":
+                        fields.append((st.target.id, "list", None))
+                    elif ast.unparse(st.value) == "dataclasses.field(init=False)":
+                        fields.append((st.target.id, "noinit", None))
+                    else:
+                        die(st, f"dataclass field default of {name}.{st.target.id} is not translated")
+                elif isinstance(st, ast.Assign):
+                    die(st, f"class attribute in dataclass {name}")
+            seen_default = False
+            for _, kind, _ in fields:
+                if kind in ("const", "list"):
+                    seen_default = True
+                elif kind == "req" and seen_default:
+                    raise Reject(f"dataclass {name}: required field after a defaulted one")
+            post = [n for n in cls[0].body if isinstance(n, ast.FunctionDef) and n.name == "__post_init__"]
+            noinit = [f for f, k, _ in fields if k == "noinit"]
+            if noinit:
+                # every init=False field must be assigned unconditionally at the top level of __post_init__
+                done = set()
+                if post:
+                    for st in post[0].body:
+                        if isinstance(st, ast.Assign) and len(st.targets) == 1 and isinstance(st.targets[0], ast.Attribute) \
+                                and isinstance(st.targets[0].value, ast.Name) and st.targets[0].value.id == "self":
+                            done.add(st.targets[0].attr)
+                if set(noinit) - done:
+                    raise Reject(f"dataclass {name}: init=False field not set by __post_init__")
+            self.dataclasses[name] = (fields, post[0] if post else None)
+
+    def construct_text(self, caller, name, args, go, eff):
+        fields, _ = self.dataclasses[name]
+        init = [(f, k, d) for f, k, d in fields if k != "noinit"]
+        if len(args) > len(init):
+            die(args[0], f"too many arguments for {name}(...)")
+        vals = [go(a) for a in args]
+        for f, k, d in init[len(vals):]:
+            if k == "req":
+                raise Reject(f"{name}(...) without the required field {f}")
+            vals.append(d if k == "const" else eff("hy_new_list []"))
+        return f"S_H_new_{name} {' '.join(vals)}"
+
+    def run(self):
+        out = ["(* GENERATED by tools/gen_source_heap.py from /repo's source text - do not edit *)",
+               "From Coq Require Import List NArith ZArith Bool.",
+               "From D2P Require Import Str Err PyVal PyHeap SourceHeap.",
+               "Import ListNotations.", "Open Scope pyh_scope.", "",
+               f"(* ===== {MODULE}: dataclasses {', '.join(RUN_DATACLASSES)}; paragraph and run methods of {CLASS} ===== *)",
+               "Section Ext.",
+               "(* functions of text_runs.py that are not translated here: parameters *)"]
+        for f, n in RUN_EXT_FNS.items():
+            out.append(f"Variable ext_{f} : {' -> '.join(['pv'] * n)} -> hm pv.")
+        out.append("")
+        self.emitted = set(self.base)
+        for name in RUN_DATACLASSES:
+            fields, post = self.dataclasses[name]
+            init = [f for f, k, _ in fields if k != "noinit"]
+            flds = "; ".join(f"({coq_str(f)}, {'VNone' if k == 'noinit' else 'v_' + f})" for f, k, _ in fields)
+            params = " ".join(f"(v_{f} : pv)" for f in init)
+            if post is not None:
+                fn = HFn(self, post)
+                self.fuelled["__post_init__"] = False
+                text = fn.emit().replace("S_H_post_init", f"S_H_{name}_post_init").replace(
+                    f"(* {CLASS}.__post_init__", f"(* {name}.__post_init__")
+                out.append(text)
+                out.append(f"(* {name}(...): allocate the object, then __post_init__ *)\n"
+                           f"Definition S_H_new_{name} {params} : hm pv :=\n"
+                           f"  o <~h hy_new_obj {coq_str(name)} [{flds}] ;;;\n"
+                           f"  _ <~h S_H_{name}_post_init o ;;;\n  hret o.\n")
+            else:
+                out.append(f"(* {name}(...): allocate the object *)\n"
+                           f"Definition S_H_new_{name} {params} : hm pv :=\n"
+                           f"  hy_new_obj {coq_str(name)} [{flds}].\n")
+        for m in RUN_METHODS:
+            out.append(self.fns[m].emit())
+            self.emitted.add(m)
+        out.append("End Ext.")
+        return "\n".join(out) + "\n"
+
+
+# ---------------------------------------------------------------------------------------------
 # second output: the string views in heap mode (freshness of what they return, C14)
 VIEWS_SPEC = [
     ("text_runs.py", ["html_open", "html_close"]),
@@ -679,13 +838,15 @@ def write(out: Path, make):
 
 
 def main():
-    if len(sys.argv) not in (3, 4):
+    if len(sys.argv) not in (3, 4, 5):
         print(__doc__, file=sys.stderr)
         sys.exit(64)
     repo = Path(sys.argv[1])
     rc = write(Path(sys.argv[2]), lambda: HTranslator(repo).run())
-    if len(sys.argv) == 4:
+    if len(sys.argv) >= 4:
         rc = max(rc, write(Path(sys.argv[3]), lambda: ViewsTranslator(repo).run()))
+    if len(sys.argv) == 5:
+        rc = max(rc, write(Path(sys.argv[4]), lambda: RunsTranslator(repo).run()))
     sys.exit(rc)
 
 
